@@ -1,7 +1,8 @@
 ------------------------------- MODULE Includes -------------------------------
 (* Include-file resolution over a search path, and the dependency listing.   *)
 (* A file system maps (directory, name) to a content; a content is a sequence *)
-(* of forms <<"include", name>> or <<"embed", kind, name>>.  The same name    *)
+(* of forms <<"include", name>>, <<"embed", kind, name>> or <<"nested", c>>   *)
+(* (a (mod ...) expression whose own forms are c).  The same name             *)
 (* may exist in several directories; the search path is a sequence of         *)
 (* directories; a name resolves to the first directory that has it.           *)
 (* Two processes walk the same graph: the compiler (reads) and the dependency  *)
@@ -15,16 +16,37 @@ Resolve(fs, path, name) ==
 
 \* the set of files read when compiling a content, following includes recursively (embedded
 \* files are read but not searched for further forms); "err" when a name cannot be found
-RECURSIVE ReadsOf(_, _, _, _)
-ReadsOf(fs, path, content, fuel) ==
+\* infile: content is that of an included file (a nested (mod ...) there sits in a function nobody calls); lazy: the
+\* classic compiler, which never looks at a function that is not called
+RECURSIVE ReadsOfG(_, _, _, _, _, _)
+ReadsOfG(fs, path, content, fuel, infile, lazy) ==
   IF fuel = 0 \/ content = <<>> THEN [files |-> {}, err |-> FALSE]
-  ELSE LET form == content[1]
-           name == form[Len(form)]
+  ELSE LET form == content[1] IN
+       IF form[1] = "nested" THEN
+          \* a (mod ...) used as an expression: its own forms are processed when the expression is parsed
+          LET inner == IF infile /\ lazy THEN [files |-> {}, err |-> FALSE] ELSE ReadsOfG(fs, path, form[2], fuel - 1, FALSE, lazy)
+              rest == IF inner.err THEN [files |-> {}, err |-> TRUE] ELSE ReadsOfG(fs, path, Tail(content), fuel, infile, lazy)
+          IN [files |-> inner.files \cup rest.files, err |-> inner.err \/ rest.err]
+       ELSE
+       LET name == form[Len(form)]
            tgt == Resolve(fs, path, name) IN
        IF tgt = NoFile THEN [files |-> {}, err |-> TRUE]
-       ELSE LET inner == IF form[1] = "include" THEN ReadsOf(fs, path, fs[tgt], fuel - 1) ELSE [files |-> {}, err |-> FALSE]
-                rest == IF inner.err THEN [files |-> {}, err |-> TRUE] ELSE ReadsOf(fs, path, Tail(content), fuel)
+       ELSE LET inner == IF form[1] = "include" THEN ReadsOfG(fs, path, fs[tgt], fuel - 1, TRUE, lazy) ELSE [files |-> {}, err |-> FALSE]
+                rest == IF inner.err THEN [files |-> {}, err |-> TRUE] ELSE ReadsOfG(fs, path, Tail(content), fuel, infile, lazy)
             IN [files |-> {tgt} \cup inner.files \cup rest.files, err |-> inner.err \/ rest.err]
+ReadsOf(fs, path, content, fuel) == ReadsOfG(fs, path, content, fuel, FALSE, FALSE)
+ReadsLazy(fs, path, content, fuel) == ReadsOfG(fs, path, content, fuel, FALSE, TRUE)
+
+\* the non-strict modern dialects (cl21, cl22) reject an include or embed-file form that stands in an included file
+\* ("unknown keyword in helper"); the classic compiler and the strict dialects process it
+RECURSIVE FormInFile(_, _, _, _, _)
+FormInFile(fs, path, content, infile, fuel) ==
+  IF fuel = 0 \/ content = <<>> THEN FALSE
+  ELSE LET form == content[1] IN
+       \/ FormInFile(fs, path, Tail(content), infile, fuel)
+       \/ IF form[1] = "nested" THEN FormInFile(fs, path, form[2], FALSE, fuel - 1)
+          ELSE \/ infile
+               \/ form[1] = "include" /\ LET tgt == Resolve(fs, path, form[2]) IN tgt # NoFile /\ FormInFile(fs, path, fs[tgt], TRUE, fuel - 1)
 
 \* the listing, as designed: every file the walk above resolves
 DepsOf(fs, path, content, fuel) == ReadsOf(fs, path, content, fuel)
@@ -32,10 +54,25 @@ DepsOf(fs, path, content, fuel) == ReadsOf(fs, path, content, fuel)
 RECURSIVE DepsNoEmbed(_, _, _, _)
 DepsNoEmbed(fs, path, content, fuel) ==
   IF fuel = 0 \/ content = <<>> THEN {}
-  ELSE LET form == content[1] name == form[Len(form)] tgt == Resolve(fs, path, name) IN
+  ELSE LET form == content[1] IN
+       IF form[1] = "nested" THEN DepsNoEmbed(fs, path, form[2], fuel - 1) \cup DepsNoEmbed(fs, path, Tail(content), fuel)
+       ELSE
+       LET name == form[Len(form)] tgt == Resolve(fs, path, name) IN
        IF tgt = NoFile THEN {}
        ELSE (IF form[1] = "include" THEN {tgt} \cup DepsNoEmbed(fs, path, fs[tgt], fuel - 1) ELSE {})
             \cup DepsNoEmbed(fs, path, Tail(content), fuel)
+\* the listing that looks only at the forms of the program it is given, not at those of the (mod ...) expressions in
+\* it (the behaviour of the unrepaired code)
+RECURSIVE DepsNoNested(_, _, _, _)
+DepsNoNested(fs, path, content, fuel) ==
+  IF fuel = 0 \/ content = <<>> THEN {}
+  ELSE LET form == content[1] IN
+       IF form[1] = "nested" THEN DepsNoNested(fs, path, Tail(content), fuel)
+       ELSE
+       LET name == form[Len(form)] tgt == Resolve(fs, path, name) IN
+       IF tgt = NoFile THEN {}
+       ELSE {tgt} \cup (IF form[1] = "include" THEN DepsNoNested(fs, path, fs[tgt], fuel - 1) ELSE {})
+            \cup DepsNoNested(fs, path, Tail(content), fuel)
 
 \* C18
 ListingComplete(fs, path, main) ==
